@@ -378,7 +378,7 @@ class ReactionQueryReader(object):
         assert tree[1][0] == 'GroupName'
         assert tree[2][0] == 'LabelMapping'
         labelmapping = self.LabelMapping(tree[2][1:])
-        if tree[1][1] not in self.RINGgroups:
+        if not self.RINGgroups or tree[1][1] not in self.RINGgroups:
             raise RINGReaderError("ReactantGroup: Unrecognized group name:'"
                                   + tree[1][1] + "'")
 
